@@ -56,12 +56,24 @@ def _make_views():
                 return 'tok-view-2-only2'
             V.only2 = only2
         views.append(V)
+
+    # a view that INHERITS its public methods from another view (and adds one of its own)
+    class Derived(views[0]):
+        def extra(self):
+            return 'tok-view-3-extra'
+
+        def get(self, _k=3):
+            return 'tok-view-3-get'
+    Derived.__name__ = 'V3'
+    views.append(Derived)
     return views
 
 
 FUNCS = _make_functions()
 VIEWS = _make_views()
-VIEW_PUBLIC = {0: ['get', 'put', 'stat'], 1: ['get', 'put', 'stat'], 2: ['get', 'put', 'stat', 'only2']}
+VIEW_PUBLIC = {0: ['get', 'put', 'stat'], 1: ['get', 'put', 'stat'], 2: ['get', 'put', 'stat', 'only2'], 3: ['get', 'put', 'stat', 'extra']}
+# tokens of view 3: 'get' and 'extra' are its own, 'put' and 'stat' are inherited from view 0
+VIEW3_TOKENS = {'get': 'tok-view-3-get', 'extra': 'tok-view-3-extra', 'put': 'tok-view-0-put', 'stat': 'tok-view-0-stat'}
 
 
 def join(*parts: Optional[str]) -> str:
@@ -78,7 +90,7 @@ class C15(Check):
         "add(f, name) (names incl. dotted ones and names colliding with other registrations), add_methods(f, g), view(V), view(V, prefix), "
         "merge(r_i into r_j) (i != j, chains up to 3 levels; merged content is a snapshot), then attachment to a sync or async dispatcher via "
         "add_methods(registry) / add(f, name) / view(V); functions return unique tokens, two functions share one __name__, views have public "
-        "methods, a staticmethod, _private and __dunder__ methods and non-callable attributes. Oracle: a dict model name -> token built from "
+        "methods, a staticmethod, _private and __dunder__ methods and non-callable attributes; one view inherits its public methods from another. Oracle: a dict model name -> token built from "
         "the property's naming rule; after attach every model name dispatches to its token, every probed other name (one edit away, prefix "
         "dropped / added, private and dunder member names with and without prefixes, bare un-prefixed names) yields -32601, and the "
         "dispatcher's registry key set equals the model's. non-trivial = the history merges a prefixed registry or registers a view, and "
@@ -89,12 +101,12 @@ class C15(Check):
     ]
     trusted_base = ['dict model in checks/c15.py']
     required_classes = ['op/add', 'op/add-name', 'op/add_methods', 'op/view', 'op/view-prefix', 'op/merge', 'merge/prefixed-into-prefixed',
-                        'merge/depth>=2', 'replaced', 'attach/registry', 'attach/add', 'attach/view', 'dispatcher/sync', 'dispatcher/async']
+                        'merge/depth>=2', 'replaced', 'attach/registry', 'attach/add', 'attach/view', 'dispatcher/sync', 'dispatcher/async', 'view/inherited']
 
     def strategy(self, tier: str):
         s_fn = st.integers(0, len(FUNCS) - 1)
         s_reg = st.integers(0, 3)
-        s_view = st.integers(0, 2)
+        s_view = st.integers(0, 3)
         s_op = st.one_of(
             st.builds(lambda r, f: ['add', r, f], s_reg, s_fn),
             st.builds(lambda r, f, n: ['add-name', r, f, n], s_reg, s_fn, st.sampled_from(EXPLICIT)),
@@ -144,7 +156,7 @@ class C15(Check):
                 if m == 'only2' and kind == 'sync':
                     yield m, None   # coroutine under the sync dispatcher: reachable, but the result is not JSON - only reachability is probed
                 else:
-                    yield m, f'tok-view-{v}-{m}'
+                    yield m, (VIEW3_TOKENS[m] if v == 3 else f'tok-view-{v}-{m}')
 
         for op in spec['ops']:
             k = op[0]
@@ -169,6 +181,8 @@ class C15(Check):
                     put(models[r], join(prefixes[r], p, m), tok)
                 classes.add(f'op/{k}')
                 uses_view = True
+                if op[2] == 3:
+                    classes.add('view/inherited')
             elif k == 'merge':
                 src, dst = op[1] % nreg, op[2] % nreg
                 if src == dst:
